@@ -70,6 +70,11 @@ theorem net_eq_wsum (l : List Rec) (y : Row) : net l y = wsum (fun x => ind1 x y
   | nil => rfl
   | cons r rs ih => simp only [net, wsum, weight_eq, ih, ind1]; split <;> simp
 
+theorem net_congr_row (l : List Rec) {y y' : Row} (h : rowEq y y' = true) : net l y = net l y' := by
+  induction l with
+  | nil => rfl
+  | cons r rs ih => simp only [net, weight_eq, ih, rowEq_congr_right h r.vals]
+
 theorem ind1_congr (y : Row) : Congr (fun x => ind1 x y) := by
   intro x x' h; simp only [ind1, rowEq_congr_left h y]
 
